@@ -5,7 +5,7 @@ cd /verif
 wt=/tmp/seedmx_$$
 git -C /repo worktree add -q --detach "$wt" HEAD || exit 3
 trap 'git -C /repo worktree remove --force "$wt" >/dev/null 2>&1' EXIT
-out=seeded/RESULTS.md
+out=${SEED_OUT:-seeded/RESULTS.md}
 tier="${1:-quick}"
 {
 echo "# Seeded changes vs. checks (tier $tier, repo $(git -C /repo rev-parse --short HEAD), verif $(git rev-parse --short HEAD))"
@@ -13,7 +13,7 @@ echo
 echo "| seed | property | outcome | first report |"
 echo "|---|---|---|---|"
 } > "$out.tmp"
-for d in seeded/C*-m*; do
+for d in seeded/${SEED_GLOB:-C*-*m*}; do
   name=$(basename "$d"); prop=${name%%-*}
   git -C "$wt" checkout -q -- . ; git -C "$wt" clean -fdq
   if ! git -C "$wt" apply "$(realpath $d/patch.diff)" 2>/dev/null; then echo "| $name | $prop | PATCH-DOES-NOT-APPLY | |" >> "$out.tmp"; continue; fi
